@@ -28,6 +28,7 @@ func main() {
 	only := flag.String("rule", "", "run a single rule id")
 	oracle := flag.String("oracle", "/verif/checker/oracle", "directory of the reference fmt sources")
 	replay := flag.String("replay", "", "re-evaluate the obligation recorded in a replay file on the current tree")
+	survey := flag.Bool("survey", false, "developer command: run every registered rule once and print one status line per rule (no evidence written)")
 	genEvo := flag.Bool("gen-evolution", false, "developer command: regenerate oracle/*/evolution.json from the current tree")
 	flag.Parse()
 	if t := os.Getenv("VERIF_TIER"); t != "" && *tier == "quick" {
@@ -70,6 +71,10 @@ func main() {
 	}
 	if *replay != "" {
 		os.Exit(doReplay(ctx, *replay))
+	}
+	if *survey {
+		doSurvey(ctx)
+		return
 	}
 	ids, ok := rules.Properties[*prop]
 	if !ok {
@@ -127,6 +132,41 @@ func main() {
 	}
 	code := v.Emit(*verif+"/evidence", time.Since(start).Seconds(), seed, extra)
 	os.Exit(code)
+}
+
+// doSurvey runs every registered rule once on the loaded tree and prints one
+// line per rule; the mutation campaign (tools/campaign.py) uses it to learn
+// which rules a variant trips without paying one process per property.
+func doSurvey(ctx *rules.Ctx) {
+	var ids []string
+	for id := range rules.Registry {
+		ids = append(ids, id)
+	}
+	sort.Strings(ids)
+	for _, id := range ids {
+		func() {
+			defer func() {
+				if r := recover(); r != nil {
+					fmt.Printf("SURVEY rule=%s status=panic msg=%v\n", id, r)
+				}
+			}()
+			st, msg := "ok", ""
+			for _, r := range rules.Registry[id](ctx) {
+				switch {
+				case len(r.Findings) > 0:
+					st = "violation"
+					if msg == "" {
+						msg = r.Findings[0].Construct + ": " + r.Findings[0].Msg
+					}
+				case len(r.Undecided) > 0 && st == "ok":
+					st, msg = "undecided", r.Undecided[0]
+				case r.Obligations < r.Floor && st == "ok":
+					st, msg = "vacuous", fmt.Sprintf("%d < floor %d", r.Obligations, r.Floor)
+				}
+			}
+			fmt.Printf("SURVEY rule=%s status=%s msg=%s\n", id, st, msg)
+		}()
+	}
 }
 
 // doReplay re-runs the rule named in a replay file and reports whether the
